@@ -135,5 +135,14 @@ PROPS["C16"] = {
     "rule": "all adjacent-day pairs around month/year boundaries of 9 years in both directions, random date pairs with perturbations, 12x12 HH:mm boundary pairs (+ as profile segments), random HH:mm pairs, out-of-domain HH:mm, date-time pairs straddling second boundaries by -1001..1001 ms, random near pairs. Non-trivial = the two values differ; distinct = distinct Coq case terms.",
 }
 
+PROPS["C15"] = {
+    "engine": "text", "properties_file": "Properties/C15.v", "env": {"TZ": "UTC"},
+    "model_files": ["Model/Addr.v", "Model/Cases15.v"],
+    "technique": "Coq: model of the parsers incl. the two unanchored regular expressions (matcher proved equal to its denotation) and netip's IPv4 / port parsing; canonical-form theorems for all addresses, ports and roles; differential run incl. all strings over a small alphabet",
+    "level_text": "Proved for all four roles, all 2^32 addresses and all 2^16 ports: a.b.c.d:port in canonical decimal is accepted iff the role's port rule holds and yields exactly that address and port; a.b.c.d alone gets the role's default port (listen: rejected); every string containing no dotted quad is rejected (the list-of-successes regex matcher is proved equivalent to the denotation 'some substring is d{1,3}.d{1,3}.d{1,3}.d{1,3}'); parse (format x) = x for every accepted x. Octet scanning is proved through an enumeration of the 256 octet numerals lifted to arbitrary surrounding text; decimal port numerals by induction on the digit string. The model is compared with ParseBindAddr/ParseBroadcastAddr/ParseListenAddr/ParseControllerAddr and String() on every run.",
+    "level_note": "Trusted: Coq kernel + vm_compute (256-octet enumeration); the hand model of regexp.MatchString for the two patterns and of netip.ParseAddrPort/ParseAddr/parseIPv4 (Go 1.23) and strconv.ParseUint(.,10,16); inputs that reach netip's IPv6 parser or the bracket syntax are Unknown in the model and unconstrained by the property.",
+    "rule": "per role: canonical forms and near misses (19 octet spellings x 4 positions x 18 port spellings), all strings <= 4 (thorough <= 6) over {0,1,9,.,:,a}, quads embedded in surrounding text, IPv6-looking strings, random single-character mutations of valid addresses, String() of generated addresses and parse of the formatted text. Non-trivial = non-empty string; distinct = distinct Coq case terms.",
+}
+
 DEV = {"API": {"engine": "api", "properties_file": "Properties/C12.v", "model_files": [], "env": {"TZ": "UTC"}}}
 NOT_YET = {}
